@@ -47,6 +47,26 @@ func (w *world) othersDigest(t *wTask) string {
 	return "C[" + strings.Join(c2, ",") + "] R[" + strings.Join(r2, ",") + "]"
 }
 
+// taskDigest: digest of what belongs to task t only
+func (w *world) taskDigest(t *wTask) string {
+	full := w.digest()
+	parts := strings.SplitN(full, "] R[", 2)
+	cs := strings.Split(strings.TrimPrefix(parts[0], "C["), ",")
+	rs := strings.Split(strings.TrimSuffix(parts[1], "]"), ",")
+	var c2, r2 []string
+	for _, c := range cs {
+		if strings.HasPrefix(c, t.src+"/"+t.ig+"/") {
+			c2 = append(c2, c)
+		}
+	}
+	for _, r := range rs {
+		if strings.HasPrefix(r, t.table+"/"+t.src+"/"+t.ig+"/") {
+			r2 = append(r2, r)
+		}
+	}
+	return "C[" + strings.Join(c2, ",") + "] R[" + strings.Join(r2, ",") + "]"
+}
+
 func runC04(e *core.Env) error {
 	r := e.Rand
 	nHist := e.N(30, 400)
@@ -63,7 +83,7 @@ func runC04(e *core.Env) error {
 		}
 		nIG := 2 + rr.Intn(2)
 		sharedTable := rr.Bool()
-		nApproval := 0
+		nApproval, stampCols := 0, 0
 		var igs []config.Integration
 		for i := 0; i < nIG; i++ {
 			table := fmt.Sprintf("t%d", i+1)
@@ -78,6 +98,11 @@ func runC04(e *core.Env) error {
 				continue
 			}
 			igs = append(igs, transferIG(fmt.Sprintf("ig%d", i+1), table, fields, func(ci *config.Integration) {
+				if rr.Chance(1, 3) {
+					// the table spells out the stamp columns itself; the block list does not name them
+					ci.Table.Columns = append(ci.Table.Columns, wpg.Column{Name: "ig_name", Type: "text"}, wpg.Column{Name: "src_name", Type: "text"})
+					stampCols++
+				}
 				if rr.Chance(1, 3) { // different address filter on the same event
 					for j := range ci.Block {
 						if ci.Block[j].Name == "log_addr" {
@@ -197,7 +222,7 @@ func runC04(e *core.Env) error {
 		}
 		op, impl := w.caseOp()
 		e.Add(core.Case{Oracles: alone, Impl: "ok", Key: fmt.Sprintf("c04-alone %d %d", h, e.Seed), Nontrivial: true,
-			Tags: []string{"rows-as-if-alone", fmt.Sprintf("approval-tasks=%d", nApproval), fmt.Sprintf("settled=%v", quiet)}, Detail: map[string]any{"history": strings.Split(op, "\n")}})
+			Tags: []string{"rows-as-if-alone", fmt.Sprintf("approval-tasks=%d", nApproval), fmt.Sprintf("settled=%v", quiet), fmt.Sprintf("table-declares-stamp-columns=%d", stampCols)}, Detail: map[string]any{"history": strings.Split(op, "\n")}})
 		tags := []string{fmt.Sprintf("shared-table=%v", sharedTable), fmt.Sprintf("pairs=%d", len(tasks))}
 		for k, v := range w.tags {
 			for j := 0; j < v; j++ {
@@ -538,7 +563,23 @@ func runC06(e *core.Env) error {
 			if err != nil {
 				return err
 			}
-			root := config.Root{Integrations: []config.Integration{transferIG("ig1", "t1", []string{"block_time"}, nil)}}
+			// a third of the time the task under test is a DEPENDENT (a filter reference on another
+			// integration that is kept ahead of it): start / stop / completion apply to it all the same
+			dependent := rr.Chance(1, 3)
+			igsC06 := []config.Integration{transferIG("ig1", "t1", []string{"block_time"}, nil)}
+			if dependent {
+				igsC06 = []config.Integration{
+					transferIG("ig1", "t1", []string{"block_time", "log_addr"}, func(ci *config.Integration) {
+						for j := range ci.Block {
+							if ci.Block[j].Name == "log_addr" {
+								ci.Block[j].Filter = dig.Filter{Op: core.Pick(rr, []string{"contains", "!contains"}), Ref: dig.Ref{Integration: "iga", Column: "ev_from"}}
+							}
+						}
+					}),
+					transferIG("iga", "ta", []string{"block_time"}, nil),
+				}
+			}
+			root := config.Root{Integrations: igsC06}
 			if err := w.setupRoot(&root); err != nil {
 				w.close()
 				return err
@@ -548,6 +589,22 @@ func runC06(e *core.Env) error {
 			if err != nil {
 				w.close()
 				return err
+			}
+			var ahead *wTask
+			runAhead := func() {
+				for k := 0; ahead != nil && k < 40 && !w.dead; k++ {
+					if out := w.step(ahead, noFault); !strings.HasPrefix(out, "ok") {
+						break
+					}
+				}
+			}
+			if dependent {
+				ahead, err = w.addTask("ta", root.Integrations[1], "src1", 1, 0, 4, 1)
+				if err != nil {
+					w.close()
+					return err
+				}
+				runAhead()
 			}
 			// optionally a prior recorded position (as left by an earlier run with another start)
 			prior := rr.Chance(1, 3)
@@ -569,26 +626,30 @@ func runC06(e *core.Env) error {
 				switch rr.Intn(8) {
 				case 0:
 					w.grow(1 + rr.Intn(2))
+					runAhead()
 					continue
 				case 1:
 					w.newPool()
 					w.buildTask(t)
+					if ahead != nil {
+						w.buildTask(ahead)
+					}
 					w.tags["restart"]++
 					continue
 				}
-				before := w.digest()
+				before := w.taskDigest(t)
 				out := w.step(t, noFault)
 				oracles = append(oracles, w.withinOracle(t, lo))
 				_, top, has, _ := w.taskRows(t)
 				verdict := "ok"
 				switch {
-				case doneSeen && w.digest() != before:
+				case doneSeen && w.taskDigest(t) != before:
 					verdict = "wrote after completion was reported"
 				case out == "done" && !(g.stop > 0 && (has && top >= g.stop ||
 					!has && (g.start == 0 && w.head()-1 >= g.stop || g.start > 0 && g.start-1 >= g.stop))):
 					// (an empty range — the initial position is already at or beyond stop — is complete at once)
 					verdict = "completion reported before the stop block was recorded"
-				case g.stop > 0 && has && top >= g.stop && i > 0 && out != "done" && w.digest() == before && out != "err":
+				case g.stop > 0 && has && top >= g.stop && i > 0 && out != "done" && w.taskDigest(t) == before && out != "err":
 					// position already at stop before this step: the step must report completion
 					verdict = "stop recorded but step reported " + out
 				case has && g.stop > 0 && top > g.stop && !prior:
@@ -604,7 +665,7 @@ func runC06(e *core.Env) error {
 			}
 			op, impl := w.caseOp()
 			e.Add(core.Case{Op: op, Impl: impl, Oracles: oracles, Nontrivial: reached || prior, Key: fmt.Sprintf("c06 %d %d %d %d %d", g.start, g.stop, batch, headLen, rep),
-				Tags: []string{fmt.Sprintf("start=%d", g.start), fmt.Sprintf("stop=%d", g.stop), fmt.Sprintf("prior=%v", prior), fmt.Sprintf("done=%v", reached)}})
+				Tags: []string{fmt.Sprintf("start=%d", g.start), fmt.Sprintf("stop=%d", g.stop), fmt.Sprintf("prior=%v", prior), fmt.Sprintf("done=%v", reached), fmt.Sprintf("dependent=%v", dependent)}})
 			w.close()
 		}
 	}
